@@ -353,6 +353,10 @@ def collector(E):
     use_count = E.path.choice(2, 'limit_count') == 1
     count = E.fresh_int('limit_count', 1) if use_count else None
     col = E.call(E.lookup(COL), [rate, count])
+    E.prove('collector:starts_with_an_empty_window_nothing_collected_and_not_done',
+            col.attrs['_received_count'] == 0 and col.attrs['_total_received_count'] == 0 and col.attrs['values'] == []
+            and col.attrs['error'] is None and col.attrs['is_done'].attrs['flag'] is False
+            and col.attrs['_limit_rate'] is rate and col.attrs['_limit_count'] is count)
     sub = SOpaque('subscription', 'subscription')
     log = OpaqueLog(E)
     E.call(E.getattr(col, 'on_subscribe'), [sub])
@@ -497,3 +501,30 @@ def awaitable_rr(E):
             [(c[1], c[2]) for c in log.of(sock)] == [('request_response', (payload,))] and r is fut.attrs['value'])
     E.prove('awaitable:fnf_and_push_delegate_unchanged', E.call(E.getattr(aw, 'fire_and_forget'), [payload]) is fut
             and E.call(E.getattr(aw, 'metadata_push'), [b'm']) is fut)
+
+
+# --------------------------------------------------------------------------- construction of the sources (pre-states of the contracts above)
+
+def _source_construct(cls_q):
+    def run(E):
+        E.import_module('asyncio')
+        gen = SOpaque('callable', 'generator-factory')
+        delay = aio.mk_timedelta(E, E.fresh_int('delay_us', 0))
+        oc, occ = SOpaque('callable', 'on_cancel'), SOpaque('callable', 'on_complete')
+        log = OpaqueLog(E)
+        src = E.call(E.lookup(cls_q), [gen, delay, oc, occ])
+        E.cover('constructed')
+        a = src.attrs
+        E.prove('source:constructed_idle[no generator started, nothing queued, no feeder task, no subscriber]',
+                a['_generator'] is None and a['_iteration'] is None and a['_payload_feeder'] is None and a['_n_feeder'] is None
+                and a['_subscriber'] is None and a['_queue'].attrs['_queue'] == [] and a['_request_n_queue'].attrs['_queue'] == []
+                and a['_queue'] is not a['_request_n_queue'])
+        E.prove('source:keeps_exactly_what_it_was_given', a['_generator_factory'] is gen and a['_delay_between_messages'] is delay
+                and a['_on_cancel'] is oc and a['_on_complete'] is occ)
+        E.prove('source:constructing_calls_nothing[the generator starts with the first credit]', not log.calls)
+    return run
+
+
+for _q in (SFG, 'rsocket/streams/stream_from_async_generator.py::StreamFromAsyncGenerator'):
+    harness('c06.source.construct[%s]' % _q.split('::')[1], ['C06', 'C07', 'C09', 'C12'],
+            functions=[_q + '.__init__', SFG + '.__init__'])(_source_construct(_q))
